@@ -82,6 +82,66 @@ func reads(sb *strings.Builder, n datamodel.Node) {
 		sb.WriteString("]")
 		sb.WriteString(ErrLetter(Safely(func() error { _, _, e := mi.Next(); return e })))
 	}
+	// a second pass that first COLLECTS every (key node, value node) pair and only then reads them:
+	// a key node must stay what it was when the iterator moves on
+	sb.WriteString(";rk:")
+	if mi2 := n.MapIterator(); mi2 == nil {
+		sb.WriteString("nil")
+	} else {
+		var rks, rvs []datamodel.Node
+		for guard := 0; !mi2.Done() && guard < 100000; guard++ {
+			k, v, err := mi2.Next()
+			if err != nil {
+				break
+			}
+			rks = append(rks, k)
+			rvs = append(rvs, v)
+		}
+		sb.WriteString("[")
+		for _, k := range rks {
+			k := k
+			ks := "!"
+			_ = Safely(func() error {
+				s, err := k.AsString()
+				if err == nil && k.Kind() == datamodel.Kind_String {
+					ks = "k" + Hex(s)
+				}
+				return nil
+			})
+			sb.WriteString(ks + ":" + lookRes(func() (datamodel.Node, error) { return n.LookupByNode(k) }) + ",")
+		}
+		sb.WriteString("]rb:")
+		// re-assemble a map from the collected pairs and compare it with the source
+		var eq bool
+		err := Safely(func() error {
+			nb := basicnode.Prototype.Map.NewBuilder()
+			ma, err := nb.BeginMap(int64(len(rks)))
+			if err != nil {
+				return err
+			}
+			for i := range rks {
+				if err := ma.AssembleKey().AssignNode(rks[i]); err != nil {
+					return err
+				}
+				if err := ma.AssembleValue().AssignNode(rvs[i]); err != nil {
+					return err
+				}
+			}
+			if err := ma.Finish(); err != nil {
+				return err
+			}
+			eq = datamodel.DeepEqual(nb.Build(), n)
+			return nil
+		})
+		switch {
+		case err != nil:
+			sb.WriteString("!" + ErrLetter(err))
+		case eq:
+			sb.WriteString("T")
+		default:
+			sb.WriteString("F")
+		}
+	}
 	sb.WriteString(";li:")
 	nlist := 0
 	if li := n.ListIterator(); li == nil {
